@@ -954,7 +954,9 @@ class Gen:
         modules. Compared with the extracted model of coq/C03/ProcessModel.v (which runs C05's walker model)."""
         rng = self.rng
         out = []
-        tcpus = ["amd64"] * 5 + ["x86"] * 3 + ["arm64"] * 2 + ["arm", "arm64old", "mips", "mips", "ppc", "sparc"]   # dumpspec.rs writes mips64 contexts the thread reader does not decode: D cases only
+        # mips64 (second pass): MinidumpContext::read has no arm for that architecture, so no context of such a dump is decoded — the
+        # model side (ocaml/c03/main.ml) gives every thread and the exception None; every call stack is MissingContext without frames
+        tcpus = ["amd64"] * 5 + ["x86"] * 3 + ["arm64"] * 2 + ["arm", "arm64old", "mips", "mips", "ppc", "sparc", "mips64"]
         for _ in range(n):
             cpu = rng.choice(tcpus)
             bits, ips, sps, fps, lrs, _ = CPUS[cpu]
@@ -1191,7 +1193,10 @@ class C03(PropBase):
             "adjacent / overlapping regions, MemoryList and Memory64List, modules without symbols, overlapping unloaded modules) compare every thread's CallStackInfo, "
             "frames (instruction, trust), unloaded-module offsets and requesting_thread with the extracted model of into_process_state + C05's walker; B cases the "
             "NEARBY_REGISTER entry of the bit-flip confidence; N cases MinidumpInfo::new with streams made unreadable; D theme `bitflip` (crash address one flipped bit from "
-            "mapped memory / NULL / non-canonical, 0..16 registers planted near the corrected address). Non-trivial = "
+            "mapped memory / NULL / non-canonical, 0..16 registers planted near the corrected address). Second pass: `share=1` dumps (D and T: every thread-list entry cites the "
+            "stack bytes and the context of the first one — T threads x S shared bytes; scan stacks, frame-pointer chains, one-byte CFI rules), mips64 in the T cases, and every T answer "
+            "carries the items the three printers wrote (thread blocks, frame lines with their offsets, JSON threads and crashing_thread), compared with the model's printers and judged by "
+            "the oracle without the model. Non-trivial = "
             "processing returned Ok with at least one thread, or a site answer; distinct = distinct case lines")
     trusted_base = [
         "Coq 8.16.1 kernel (vm_compute only in refutation witnesses and Examples)",
@@ -1202,6 +1207,9 @@ class C03(PropBase):
         "round 5: coq/C03/ProcessModel.v (thread loop of into_process_state, MinidumpInfo::new, NEARBY_REGISTER index) written by hand and tied to the code by the T/B/N "
         "correspondence and by translate/c03_sites.py (order of steps, the three .or() expressions, probe width, index expression, table of stream reads); it runs C05's walker "
         "model (coq/C05, other owner) and imports C05.Proofs.frame_bound / walk_shape",
+        "second pass: coq/C03/BudgetModel.v (descriptors as references into the file: MinidumpMemory::read, 48 / 16 bytes per list entry) and coq/C03/RenderModel.v (control flow of "
+        "print_internal, CallStack::print, print_json) written by hand; RenderModel is tied to the code by translate/c03_render.py (every index / + / - / += site and unwrap count of "
+        "the three printers, order of their blocks) and by the T correspondence on the printers' items; BudgetModel by the share=1 T cases and the replay of F-C03h (corpus)",
     ]
     assumptions = [
         "partial: the unwinder's own arithmetic and the per-walk frame bound are C05's theorems (imported: frame_bound, walk_shape), STACK CFI / STACK WIN evaluation C06/C07's; "
@@ -1212,6 +1220,11 @@ class C03(PropBase):
         "c03_render_total takes the C11 facts (function_base <= instruction, source_line_base <= instruction) as hypotheses; the module and "
         "unloaded-module facts are derived from C08 inside C03",
         "yaxpeax-x86 (operand kinds reaching the panic! arms of op_analysis), serde_json, tokio, tracing, the error-code tables and arg_recovery are exercised only",
+        "F-C03h (known finding): the number of frames, hence time and memory, is NOT bounded linearly in the input size (c03_linear_frame_budget_refuted; replayed: 49 248 frames, 390 MB "
+        "for a dump of 11 744 bytes whose 96 thread entries cite the same 4 096 stack bytes); what holds is the quadratic budget of c03_frames_budget_in_file_size. The oracle therefore counts a "
+        "stack descriptor cited by T thread entries T times (input + T x S) for share=1 dumps and reports an excess over the plain linear budget under the recorded finding only",
+        "c03_renderers_total / c03_pipeline_always_renders: print iterates modules.by_addr() (a subset of the module list, sorted), the model all modules in list order — the hypothesis is per "
+        "module, so every subset in any order is covered; sections that only format fields are markers; lines_ok (no call stack prints 2^64 lines) is the only hypothesis left on the state",
         "time / memory budget is judged by the search harness: peak heap <= 64 MiB + 20000 x input bytes (a frame costs up to ~15 KB incl. its JSON tree, and frames <= stack bytes + 2); "
         "CPU time of the processing thread <= 10 s + 0.5 ms per input byte (measured maximum on the unchanged tree: 0.17 ms per byte, 4.8 s; rendering is frames x name length, so the constant is generous), "
         "enforced while the case runs by a watchdog thread of the harness; symbol-provider calls <= 200 per produced frame",
@@ -1235,7 +1248,14 @@ class C03(PropBase):
                 "(region lookup through the C08 table, ip - base, &bytes[offset..]) returns at least one byte and never slices out of range for any region layout "
                 "(c03_instr_fetch_total, c03_memory_at_sound), fill_symbol's inline-level enumeration performs at most |INLINE records| + 1 lookups whatever depths the records carry "
                 "(c03_inline_levels_bound), a jmp/call target is only read when all 8 bytes lie in one region (c03_read_u64_inside_one_region, c03_read_u64_never_stitches), PPC/PPC64/SPARC/unknown contexts walk to exactly the context frame (c03_no_unwinder_single_frame), translate/c03_sites.py regenerates the dispatch table and constants from the source and pins the shape of every modelled function (c03_sites_match_source), and the two seeded variants of these sites are refuted in the model (c03_instr_fetch_stitch_refuted, c03_inline_maxdepth_refuted); refutations with "
-                "witnesses for the three defects fixed in /repo (F-C03b, F-C03c, F-C03g). The models are compared with whole-dump processing on "
+                "witnesses for the three defects fixed in /repo (F-C03b, F-C03c, F-C03g). Second pass of round 5: (1) the budget 'tied to the input size' decided — the input as a FILE (thread entries and memory "
+                "descriptors are references into it): c03_frames_budget_in_file_size proves frames <= |thread list| x (|file| + 2) and 48 x frames <= |file| x (|file| + 2) for every file-backed input, and "
+                "c03_linear_frame_budget_refuted / c03_shared_stack_frames prove that NO linear budget holds (for every factor c < 2^20 a well-formed dump shorter than 2^32 bytes yields more than c x |file| frames: m thread "
+                "entries citing the same m stack bytes give m x (m + 1) frames from 2048 + 49 m bytes, by induction through C05's walker model) — replayed on the real code and recorded as known finding F-C03h; "
+                "(2) 'always renders': the control flow of print / print_brief (print_internal), CallStack::print and print_json is in the model (blocks, loops over threads / frames / inlines / modules, every index and "
+                "+ / - site): c03_renderers_total (all three printers return for every state_ok state, both profiles), c03_pipeline_always_renders (thread loop + C08 module lookup + C11 fill_symbol on ANY well-formed "
+                "symbol file + the three printers, no hypothesis on the state except that no stack prints 2^64 lines), c03_render_requesting_out_of_bounds_refuted, c03_render_sites_match_source (the sites "
+                "translate/c03_render.py extracts from the source on every run are exactly the model's). The models are compared with whole-dump processing on "
                 "generated site cases (round 5: whole multi-thread dumps against the thread-loop model). Everything else (symbol walkers' insides, disassembler, JSON writer, text formatting, scheduling, arg_recovery inside the loop) is covered by search only: "
                 "structured hostile dumps x generated/corrupted symbols x three option sets through process_minidump_with_options and print / "
                 "print_brief / print_json under catch_unwind, with per-case frame-count, peak-heap, CPU-time (tied to the input size) and provider-call checks in both build profiles.",
@@ -1384,7 +1404,8 @@ class C03(PropBase):
             if t.startswith("T=") or t.startswith("R="):
                 b = t.split(":")[2 if t.startswith("T=") else 1]
                 sizes.append(0 if b == "-" else (int(b[1:]) if b.startswith("z") else len(b) // 2))
-        head, _, body = ans.partition(" ")[2].partition(" ")
+        parts = ans.split(" | ")
+        head, _, body = parts[0].partition(" ")[2].partition(" ")
         stacks = [x.split(":") for x in body.split(";")] if body else []
         if [int(x[0]) for x in stacks] != tids:
             return "call stacks %s do not correspond to the thread list %s" % ([x[0] for x in stacks], tids)
@@ -1400,6 +1421,58 @@ class C03(PropBase):
                 return "thread %s was walked for %d frames; the largest memory region has %d bytes" % (x[0], nfr, max(sizes))
             if nounw and nfr > 1:
                 return "thread %s of a %s dump has %d frames although that CPU has no unwinder" % (x[0], toks[0][4:], nfr)
+        # "the resulting state can always be written as full text, brief text and JSON" (second pass), judged on what the printers
+        # wrote: the requesting thread's block first (the only one of the brief text), then every other thread that was not skipped,
+        # in order; one frame line per frame, numbered from 0 (T dumps have no symbols, hence no inline frames), `<no frames>` for an
+        # empty stack; one JSON thread per call stack with one entry per frame; crashing_thread iff the requesting stack has frames
+        if len(parts) != 4:
+            return "the printers' items are missing from the answer: " + ans[:100]
+        nfrs = [len(x[2].split(",")) if x[2] else 0 for x in stacks]
+
+        def blocks(txt):
+            out = []
+            for t in ([] if txt == "-" else txt.split(",")):
+                if t.startswith("T"):
+                    out.append([t[1:], []])
+                elif not out:
+                    return None
+                else:
+                    out[-1][1].append(t)
+            return out
+
+        def block_ok(b):
+            i = int(b[0]) if b[0].isdigit() else -1
+            if i < 0 or i >= len(stacks):
+                return "a thread block for index %s, which is no call stack" % b[0]
+            want = ["N"] if nfrs[i] == 0 else None
+            if want is not None:
+                return None if b[1] == want else "thread %d has no frames but its block is %s" % (i, b[1])
+            nums = [t.split(":")[0] for t in b[1]]
+            if nums != ["F%d" % k for k in range(nfrs[i])]:
+                return "thread %d has %d frames but its block holds the lines %s" % (i, nfrs[i], ",".join(b[1])[:80])
+            return None
+
+        full, brief = blocks(parts[1]), blocks(parts[2])
+        if full is None or brief is None:
+            return "frame lines before the first thread header: " + (parts[1] + " / " + parts[2])[:100]
+        want_full = ([req] if req != "-" else []) + [str(i) for i, x in enumerate(stacks) if str(i) != req and x[1] != "2"]
+        if [b[0] for b in full] != want_full:
+            return "print wrote the thread blocks %s, expected %s" % ([b[0] for b in full], want_full)
+        if [b[0] for b in brief] != ([req] if req != "-" else []):
+            return "print_brief wrote the thread blocks %s, requesting thread %s" % ([b[0] for b in brief], req)
+        for b in full + brief:
+            e = block_ok(b)
+            if e:
+                return "text output: " + e
+        js = parts[3].split(",") if parts[3] != "-" else []
+        jn = [int(t[1:]) for t in js if t.startswith("J")]
+        if jn != nfrs:
+            return "print_json wrote threads with %s frames, the call stacks have %s" % (jn, nfrs)
+        if len([t for t in js if t.startswith("f")]) != sum(nfrs) or any(t.startswith("?") for t in js):
+            return "print_json frame entries do not correspond to the frames: " + parts[3][:100]
+        cs = [t[1:] for t in js if t.startswith("C")]
+        if cs != ([req] if req != "-" and nfrs[int(req)] > 0 else []):
+            return "print_json crashing_thread %s, requesting thread %s with %s frames" % (cs, req, nfrs[int(req)] if req != "-" else "-")
         return None
 
     def nontrivial(self, case, ans):
